@@ -69,6 +69,10 @@ func TdxPolicy(ctx context.Context, endorsement *epb.VMLaunchEndorsement, opts *
 		}
 		mrtds = append(mrtds, m.GetMrtd())
 	}
+	// An empty allow-list means "unconstrained" to go-tdx-guest, so there must be a match.
+	if len(mrtds) == 0 {
+		return nil, fmt.Errorf("golden measurement has no tdx measurement for ram_gib %d", opts.RAMGiB)
+	}
 	if err := modifyTdxPolicy(result, mrtds, opts); err != nil {
 		return nil, err
 	}
